@@ -35,6 +35,10 @@ fn make(alpha: &[u8], sc: &Scheme, how: u64, k: usize, w: usize, cap: (usize, us
                 tab[i][j]
             });
             let mut s = Scoring::new(sc.go, sc.ge, f);
+            // the public hint field need not describe match_fn (the banded aligner only seeds with it)
+            if how % 3 == 0 {
+                s.match_scores = Some(((how % 5) as i32, -((how % 4) as i32)));
+            }
             s.xclip_prefix = sc.clip[0];
             s.xclip_suffix = sc.clip[1];
             s.yclip_prefix = sc.clip[2];
@@ -240,7 +244,15 @@ pub fn drive(log: &mut Log) {
         }
         let mut rng = Rng::new(seed, 2, case);
         let sigma = if rng.chance(1, 3) { 2 } else { 4 };
-        let alpha: &[u8] = if sigma == 2 { ac } else { acgt };
+        let twins: [u8; 4] = [0x41, 0xC1, 0x43, 0xC3];
+        let alpha: &[u8] = if sigma == 2 {
+            ac
+        } else if rng.chance(1, 8) {
+            log.oblige("alphabet_high_bit_twins");
+            &twins
+        } else {
+            acgt
+        };
         let sc = random_scheme(&mut rng, sigma);
         let k = rng.range(1, 5) as usize;
         let w = rng.range(0, 4) as usize;
